@@ -161,7 +161,8 @@ pub fn explore<S: Space>(name: &str, bound: &str, space: S, sink: &Arc<Sink>, th
             eprintln!("[cross-check] {name}: {states} states under both engines");
         }
     }
-    Phase { name: name.to_string(), states, transitions, max_depth: depth, exhaustive: true, bound: bound.to_string() }
+    // `depth` counted levels including the root; report the longest path in transitions.
+    Phase { name: name.to_string(), states, transitions, max_depth: depth.saturating_sub(1), exhaustive: true, bound: bound.to_string() }
 }
 
 /// The bare transition system of a space (for counting under stateright).
